@@ -73,7 +73,7 @@ class P1Model:
         self.read_fn = self.reader.methods["read"]
         self.file = src.file(MOD)
         self._bind()
-        self.engine = Engine(M)
+        self.engine = Engine(M, inline_depth=10)
         self.buf = BufSem(M, self.buffer_cls)
         if self.buf.err:
             raise Undecided(f"P1 input buffer: {self.buf.err}")
